@@ -90,8 +90,8 @@ def mayRead (u : User) (b : Board) : Prop :=
 
 /-! ### "passes the posting rules" -/
 
-/-- banned from the board: a ban file whose expiry lies in the future. -/
-def banned (b : Board) (now : Nat) : Prop := ∃ e, b.ban = some e ∧ (now : Int) < e
+/-- banned from the board: a readable ban record whose expiry lies in the future. -/
+def banned (b : Board) (now : Nat) : Prop := b.banBroken = false ∧ ∃ e, b.ban = some e ∧ (now : Int) < e
 
 def boardAdmitsVL (b : Board) : Prop := hasBit b.level PERM_VIOLATELAW
 
